@@ -1,6 +1,7 @@
 """The symbolic interpreter (expressions, statements, calls, loops)."""
 from __future__ import annotations
 import ast
+import os
 import z3
 
 from .values import *  # noqa
@@ -12,6 +13,11 @@ from .dyn import VDyn, TDyn
 
 MUTATORS = {"append", "appendleft", "pop", "popleft", "add", "update", "clear", "remove", "setdefault",
             "extend", "insert", "discard", "move_to_end", "popitem", "sort", "reverse"}
+
+
+def _has_nan(x):
+    """nan has no encoding in the real-valued float sort: lists holding it stay python-level (VPyList)"""
+    return isinstance(x, VNaN) or (isinstance(x, VTuple) and any(_has_nan(y) for y in x.items))
 
 
 class Interp:
@@ -29,6 +35,8 @@ class Interp:
         self.polarity = True
         self.q_ctx = []
         D.CURRENT_I = self
+        from . import jsonmodel
+        jsonmodel.CUR[0] = path    # ground axiom instances of Json injections go to this path
 
     # ------------------------------------------------------------------ utilities
     def fresh_value(self, t, hint):
@@ -46,8 +54,13 @@ class Interp:
             return VStr(p.fresh(hint, z3.StringSort()))
         if t is TNone:
             return VNone()
+        if t is TPath:
+            return VPath(p.fresh(hint, z3.StringSort()))
+        if hasattr(t, "fresh"):
+            # extension types (e.g. pyvc/fsmodel.py: optional exception values) build their own havoc'd value
+            return t.fresh(self, hint)
         if isinstance(t, TUn):
-            return VUn(p.fresh(hint, t.sort()), t)
+            return t.wrap(p.fresh(hint, t.sort()))
         if t is TDyn:
             v = VDyn(p.fresh(hint, t.sort()))
             D.wf(self, v.e)
@@ -63,6 +76,16 @@ class Interp:
             if getattr(t, "variants", None) is not None:
                 p.assume(z3.Or([r.fields["_cls"].e == z3.StringVal(c) for c in t.variants]))
             return r
+        if isinstance(t, TMutRec):
+            e = p.fresh(hint, t.sort())
+            for fn, ft in t.fields.items():
+                self._assume_wf_expr(t.acc(fn, e), ft)
+            return t.wrap(e)
+        if isinstance(t, TDRec):
+            v = VDRec(p.fresh(hint, t.sort()), t)
+            for fn, ft in t.fields.items():
+                self._assume_wf_expr(t.val(fn, v.e), ft)
+            return v
         if isinstance(t, TList):
             arr = p.fresh(hint + "_arr", z3.ArraySort(z3.IntSort(), t.elem.sort()))
             n = p.fresh(hint + "_n", z3.IntSort())
@@ -79,6 +102,8 @@ class Interp:
                 oarr = p.fresh(hint + "_ord", z3.ArraySort(z3.IntSort(), t.k.sort()))
                 v.order = VSeq(oarr, card, t.k, "list")
             self.assume_wf_map(v)
+            if getattr(t, "default_zero", False):
+                v.default_e = z3.RealVal(0) if t.v is TReal else z3.IntVal(0)
             return v
         if isinstance(t, TSet):
             dom = p.fresh(hint + "_dom", z3.ArraySort(t.k.sort(), z3.BoolSort()))
@@ -97,7 +122,15 @@ class Interp:
             inner = self.fresh_value(t.inner, hint)
             return VOptObj(p.fresh(hint + "_present", z3.BoolSort()), inner)
         if isinstance(t, TDictRec):
-            return VDictRec({k: self.fresh_field(ft, "%s_%s" % (hint, k)) for k, ft in t.fields.items()})
+            # a field declared as "key?" may be absent: its presence is decided by forking (both shapes are explored)
+            fs = {}
+            for k, ft in t.fields.items():
+                if k.endswith("?"):
+                    k = k[:-1]
+                    if not p.branch(p.fresh("%s_has_%s" % (hint, k), z3.BoolSort())):
+                        continue
+                fs[k] = self.fresh_field(ft, "%s_%s" % (hint, k))
+            return VDictRec(fs)
         raise Unsupported("fresh of %s" % (t,))
 
     def fresh_field(self, ft, hint):
@@ -112,6 +145,8 @@ class Interp:
             facts.append(t.dt.n(e) >= 0)
         elif isinstance(t, (TMap, TSet)):
             facts.append(t.dt.card(e) >= 0)
+            k = z3.Const("wf_k", t.k.sort())
+            facts.append((t.dt.card(e) == 0) == z3.ForAll([k], z3.Not(z3.Select(t.dt.dom(e), k))))
         elif isinstance(t, TTuple):
             for i, et in enumerate(t.elems):
                 if isinstance(et, (TList, TMap, TSet)):
@@ -217,6 +252,8 @@ class Interp:
             for a in ("aggs",):
                 if hasattr(v, a):
                     setattr(c, a, dict(getattr(v, a)))
+            if getattr(v, "default_e", None) is not None:
+                c.default_e = v.default_e
         elif isinstance(v, VSet):
             c = VSet(v.dom, v.card, v.kt)
         elif isinstance(v, VObj):
@@ -227,6 +264,7 @@ class Interp:
             return c
         elif isinstance(v, VDictRec):
             c = VDictRec({})
+            c.mt = v.mt
             memo[id(v)] = c
             for fn, fv in v.fields.items():
                 c.fields[fn] = self.clone_value(fv, memo)
@@ -235,6 +273,9 @@ class Interp:
             c = VTuple([self.clone_value(x, memo) for x in v.items], v._t)
         elif isinstance(v, VOptObj):
             c = VOptObj(v.present, self.clone_value(v.obj, memo))
+        elif _is_j(v):
+            from . import jsontree
+            return jsontree.clone(self, v, memo)
         else:
             c = v  # immutable wrappers
         memo[id(v)] = c
@@ -247,6 +288,11 @@ class Interp:
         while e is not None:
             chain.append(e)
             e = e.parent
+        ge = getattr(self, "ghost_env", None)
+        if ge is not None and all(x is not ge for x in chain):
+            # environments of inlined functions do not chain to the ghost environment: snapshot it as well, so that
+            # pre_loop(<ghost var>) in their loop invariants means the value at loop entry
+            chain.append(ge)
         new_parent = None
         for e in reversed(chain):
             ne = Env(new_parent, e.module)
@@ -302,6 +348,13 @@ class Interp:
             return z3.BoolVal(False)
         if isinstance(v, VDictRec):
             return z3.BoolVal(len(v.fields) > 0)
+        if isinstance(v, VDRec):
+            return z3.BoolVal(True) if v.t.required else z3.Or([v.has(fn) for fn in v.t.optional] + [z3.BoolVal(False)])
+        if _is_j(v):
+            from . import jsontree
+            return jsontree.truth(self, v)
+        if isinstance(v, (VEmptyList, VEmptySet)):
+            return z3.BoolVal(False)
         if isinstance(v, VOptObj):
             return z3.And(v.present, self.truth(v.obj))
         if isinstance(v, VObj):
@@ -310,7 +363,19 @@ class Interp:
                 r = self.call_method_ast(v, "__len__", [], {})
                 return self.truth(r)
             return z3.BoolVal(True)
-        if isinstance(v, (VFunc, VClass, VModule, VRec, VUn, VOpaque, VExc)):
+        if isinstance(v, VRec) and getattr(v.t, "dictshape", False):
+            if any(k not in v.t.optkeys for k in v.fields):
+                return z3.BoolVal(True)
+            return z3.Or([z3.Not(f.is_none()) for f in v.fields.values()] + [z3.BoolVal(False)])
+        if isinstance(v, VRec) and getattr(v.t, "dictlike", False):
+            # a dict value is truthy iff it has at least one key
+            keys = [k for k in v.fields if not k.startswith("has_")]
+            if any(("has_" + k) not in v.fields for k in keys):
+                return z3.BoolVal(True)
+            return z3.Or([v.fields["has_" + k].e for k in keys] + [z3.BoolVal(False)])
+        if hasattr(v, "truth_expr"):
+            return v.truth_expr(self)
+        if isinstance(v, (VFunc, VClass, VModule, VRec, VUn, VOpaque, VExc, VPath, VNaN)):
             return z3.BoolVal(True)
         raise Unsupported("truth of %s" % type(v).__name__)
 
@@ -334,10 +399,15 @@ class Interp:
     def eq(self, a, b):
         if isinstance(a, VUndef) or isinstance(b, VUndef):
             return self.undef_bool()
+        if isinstance(a, VNaN) or isinstance(b, VNaN):
+            return z3.BoolVal(False)          # nan != everything, itself included
         if a is b and not isinstance(a, (VReal,)):
             return z3.BoolVal(True)
         if isinstance(a, VDyn) or isinstance(b, VDyn):
             return D.py_eq(self, a, b)
+        if _is_j(a) or _is_j(b):
+            from . import jsontree
+            return jsontree.eq(self, a, b)
         if isinstance(a, VNone) or isinstance(b, VNone):
             if isinstance(a, VNone) and isinstance(b, VNone):
                 return z3.BoolVal(True)
@@ -361,12 +431,30 @@ class Interp:
             return to_int(a) == to_int(b)
         if isinstance(a, VStr) and isinstance(b, VStr):
             return a.e == b.e
+        if isinstance(a, VPath) and isinstance(b, VPath):
+            return a.e == b.e
         if isinstance(a, VUn) and isinstance(b, VUn) and a.t == b.t:
             return a.e == b.e
         if isinstance(a, VTuple) and isinstance(b, VTuple):
             if len(a.items) != len(b.items):
                 return z3.BoolVal(False)
             return z3.And([self.eq(x, y) for x, y in zip(a.items, b.items)] + [z3.BoolVal(True)])
+        if isinstance(a, VDRec) or isinstance(b, VDRec):
+            if isinstance(a, VDictRec) and drec_shape_ok(a, b.t):
+                a = b.t.wrap(drec_of_literal(a, b.t))
+            if isinstance(b, VDictRec) and drec_shape_ok(b, a.t):
+                b = a.t.wrap(drec_of_literal(b, a.t))
+            if not (isinstance(a, VDRec) and isinstance(b, VDRec) and a.t == b.t):
+                return z3.BoolVal(False)
+            # dict equality: same keys present, equal values on them (values of absent keys are irrelevant)
+            conj = []
+            for fn in a.t.fields:
+                if fn in a.t.optional:
+                    conj.append(a.has(fn) == b.has(fn))
+                    conj.append(z3.Implies(a.has(fn), self.eq(a.field(fn), b.field(fn))))
+                else:
+                    conj.append(self.eq(a.field(fn), b.field(fn)))
+            return z3.And(conj + [z3.BoolVal(True)])
         if isinstance(a, VRec) and isinstance(b, VRec):
             if a.t.nm != b.t.nm:
                 return z3.BoolVal(False)
@@ -402,6 +490,13 @@ class Interp:
         if isinstance(a, VSet) and isinstance(b, VSet) and a.kt == b.kt:
             k = z3.Const(self.path.fresh_name("eq_k"), a.kt.sort())
             return z3.ForAll([k], z3.Select(a.dom, k) == z3.Select(b.dom, k))
+        if isinstance(a, VDictRec) and isinstance(b, VDictRec) and (a.mt is not None or b.mt is not None):
+            # by-value records: python dict equality is structural
+            mt = a.mt if a.mt is not None else b.mt
+            try:
+                return unwrap(a, mt) == unwrap(b, mt)
+            except TypeError:
+                return z3.BoolVal(False)
         if isinstance(a, (VObj, VFunc, VClass, VDictRec, VOpaque)) or isinstance(b, (VObj, VFunc, VClass, VDictRec, VOpaque)):
             if isinstance(a, VClass) and isinstance(b, VClass):
                 return z3.BoolVal(a.name == b.name)
@@ -422,6 +517,8 @@ class Interp:
             a, b = self.force(a), self.force(b)
         if self.spec and (isinstance(a, VDyn) or isinstance(b, VDyn)):
             return D.py_lt(self, a, b, strict)
+        if (isinstance(a, VNaN) and (is_num(b) or isinstance(b, VNaN))) or (isinstance(b, VNaN) and is_num(a)):
+            return z3.BoolVal(False)          # every ordering comparison with nan is False
         if isinstance(a, VNone) or isinstance(b, VNone):
             self.raise_exc("TypeError", "ordering comparison with None")
         if is_num(a) and is_num(b):
@@ -431,15 +528,45 @@ class Interp:
                 x, y = to_int(a), to_int(b)
             return x < y if strict else x <= y
         if isinstance(a, VStr) and isinstance(b, VStr):
+            if getattr(self.ver, "abstract_str_order", False):
+                return self.abstract_str_le(a.e, b.e, strict)
             return (a.e < b.e) if strict else (a.e <= b.e)
+        if type(a).__name__ == "VWStr" and type(b).__name__ == "VWStr":
+            from . import jsontree
+            return jsontree.w_lt(self, a, b, strict)
         if isinstance(a, VTuple) and isinstance(b, VTuple):
             return self._lex(a.items, b.items, strict)
         if isinstance(a, VUn) and isinstance(b, VUn) and a.t == b.t:
             f = self.ver.order_fn(a.t)
+            if not getattr(self.path, "_ord_ax_" + a.t.nm, False):
+                # comparable opaque keys: `le_<sort>` is a total order (reflexive, total, antisymmetric, transitive)
+                setattr(self.path, "_ord_ax_" + a.t.nm, True)
+                for ax in self.ver.order_axioms(a.t):
+                    self.path.assume(ax)
             return f(a.e, b.e) if not strict else z3.And(f(a.e, b.e), a.e != b.e)
         if self.spec:
             raise Unsupported("ordering of %s and %s" % (type(a).__name__, type(b).__name__))
         self.raise_exc("TypeError", "unorderable")
+
+    def abstract_str_le(self, x, y, strict):
+        """per-contract option abstract_str_order: the lexicographic order of strings is replaced by an
+        uninterpreted *total order* `str_le` (reflexive, antisymmetric, transitive, total).  Sound: every obligation
+        proved for an arbitrary total order holds for the real one (facts imported from callee contracts are read
+        through the same abstraction and hold for the real order); z3's native str.< / str.<= make goals with
+        order axioms over symbolic strings (sorted(key=...(.., id))) intractable."""
+        f = z3.Function("str_le", z3.StringSort(), z3.StringSort(), z3.BoolSort())
+        if not getattr(self.path, "_strord_axioms", False):
+            self.path._strord_axioms = True
+            a, b, c = z3.Strings("so_a so_b so_c")
+            self.path.assume(z3.ForAll([a], f(a, a), patterns=[f(a, a)]))
+            self.path.assume(z3.ForAll([a, b], z3.Or(f(a, b), f(b, a)), patterns=[f(a, b)]))
+            self.path.assume(z3.ForAll([a, b], z3.Implies(z3.And(f(a, b), f(b, a)), a == b), patterns=[z3.MultiPattern(f(a, b), f(b, a))]))
+            self.path.assume(z3.ForAll([a, b, c], z3.Implies(z3.And(f(a, b), f(b, c)), f(a, c)),
+                                       patterns=[z3.MultiPattern(f(a, b), f(b, c))]))
+            self.ver.note_assumption("string order abstracted to an uninterpreted total order (contract option abstract_str_order)")
+        if strict:
+            return z3.And(f(x, y), x != y)
+        return f(x, y)
 
     def _lex(self, xs, ys, strict):
         if not xs or not ys:
@@ -453,6 +580,10 @@ class Interp:
     def raise_exc(self, cls, msg=""):
         if self.spec:
             raise SpecUndef("partial operation in spec mode: %s %s" % (cls, msg))
+        if os.environ.get("PYVC_RAISE_TB"):
+            import traceback
+            traceback.print_stack(limit=6)
+            print("   raise_exc", cls, msg)
         raise PyRaise(VExc(cls, [mk_const(msg)]))
 
     def require_defined(self, cond, cls, msg=""):
@@ -470,15 +601,16 @@ class Interp:
         if v is not None:
             return v
         if self.spec and getattr(self, "ghost_env", None) is not None:
-            # ghost state is visible to the specifications (loop invariants) of functions interpreted inline
-            v = self.ghost_env.lookup(name)
+            # ghost variables of the contract are visible to every specification, also to loop invariants of
+            # functions interpreted inline (whose environments do not chain to the ghost environment)
+            v = self.ghost_env.vars.get(name)
             if v is not None:
                 return v
         v = self.ver.module_name(env.module, name, self)
         if v is not None:
             return v
         from . import builtins as B
-        v = B.builtin_name(name)
+        v = B.builtin_name(name, self)
         if v is not None:
             return v
         v = self.ver.spec_name(name)
@@ -527,6 +659,9 @@ class Interp:
         if hint_type is None:
             if not items:
                 et = None
+            elif any(isinstance(x, (VDictRec, VObj)) or _has_nan(x) for x in items):
+                # elements without a symbolic encoding (dict literals / heap objects): concrete python-level list
+                return VPyList(items)
             else:
                 et = self.join_types([typeof(self.encodable(x)) for x in items])
         else:
@@ -568,7 +703,79 @@ class Interp:
     def default_of(self, t):
         return z3.Const("dflt_" + "".join(c if c.isalnum() else "_" for c in t.name), t.sort())
 
+    def _keyrec_with_unpacked(self, n, env, first):
+        """{**rec, "k": v, ...} for R.keyrec records (Optional-encoded optional keys)"""
+        vals = {}
+        for k, v in zip(n.keys, n.values):
+            if k is None:
+                src = first if v is n.values[0] else self.force(self.ev(v, env))
+                if not (isinstance(src, VRec) and getattr(src.t, "dictshape", False)):
+                    raise Unsupported("dict unpacking of %s next to a keyrec" % type(src).__name__)
+                for fn, fv in src.fields.items():
+                    vals[fn] = (fv, fn in src.t.optkeys)
+            else:
+                c = const_of(self.ev(k, env))
+                if not isinstance(c, str):
+                    raise Unsupported("dict literal with symbolic keys")
+                vals[c] = (self.ev(v, env), False)
+        cands = [t for t in self.ver.types.named.values()
+                 if isinstance(t, TRec) and getattr(t, "dictshape", False) and set(t.fields) == set(vals)]
+        if len(cands) != 1:
+            raise Unsupported("dict unpacking literal: %d declared keyrecs have the keys %s" % (len(cands), sorted(vals)))
+        t = cands[0]
+        out = {}
+        for fn, ft in t.fields.items():
+            v, maybe_absent = vals[fn]
+            if maybe_absent:
+                if fn not in t.optkeys or not isinstance(v, VOpt) or v.t != ft:
+                    raise Unsupported("dict unpacking literal: optional key %s does not line up with %s" % (fn, t.nm))
+                out[fn] = v
+            elif fn in t.optkeys:
+                out[fn] = ft.wrap(ft.some(unwrap(v, ft.inner)))
+            else:
+                out[fn] = ft.wrap(unwrap(v, ft))
+        return VRec(out, t)
+
+    def _dict_with_unpacked_record(self, n, env):
+        """{**rec, "k": v, ...} where rec is a dict-shaped record: the result is the declared dict-shaped record type
+        whose key set is exactly the union (later keys override earlier ones, as in python)."""
+        vals = {}
+        for k, v in zip(n.keys, n.values):
+            if k is None:
+                src = self.ev(v, env)
+                if not self.spec:
+                    src = self.force(src)
+                if isinstance(src, VRec) and getattr(src.t, "dictshape", False):
+                    return self._keyrec_with_unpacked(n, env, src)
+                if isinstance(src, VDRec):
+                    for fn in src.t.fields:
+                        vals[fn] = (src.field(fn), src.has(fn) if fn in src.t.optional else None)
+                elif isinstance(src, VDictRec):
+                    for fn, fv in src.fields.items():
+                        vals[fn] = (fv, None)
+                else:
+                    raise Unsupported("dict unpacking of %s" % type(src).__name__)
+            else:
+                c = const_of(self.ev(k, env))
+                if not isinstance(c, str):
+                    raise Unsupported("dict literal with symbolic keys")
+                vals[c] = (self.ev(v, env), None)
+        cands = [t for t in self.ver.types.named.values() if isinstance(t, TDRec) and set(t.fields) == set(vals)
+                 and all(fn in t.optional for fn, (_, pres) in vals.items() if pres is not None)]
+        if len(cands) != 1:
+            raise Unsupported("dict unpacking literal: %d declared dict-shaped records have the keys %s" % (len(cands), sorted(vals)))
+        t = cands[0]
+        zv, present = {}, {}
+        for fn, ft in t.fields.items():
+            v, pres = vals[fn]
+            zv[fn] = unwrap(v, ft)
+            if fn in t.optional:
+                present[fn] = pres if pres is not None else z3.BoolVal(True)
+        return t.wrap(t.mk(zv, present))
+
     def ev_Dict(self, n, env):
+        if any(k is None for k in n.keys):
+            return self._dict_with_unpacked_record(n, env)
         keys = []
         for k in n.keys:
             if k is None:
@@ -584,7 +791,21 @@ class Interp:
         raise Unsupported("dict literal with symbolic keys")
 
     def ev_Set(self, n, env):
-        raise Unsupported("set literal")
+        """{a, b, c}: a set of scalars of one encodable type (cardinality exact for constants, else 1..n)"""
+        items = [self.ev(e, env) for e in n.elts]
+        if not items or any(not isinstance(x, (VInt, VStr, VBool, VUn)) for x in items):
+            raise Unsupported("set literal")
+        kt = self.join_types([typeof(x) for x in items])
+        dom = z3.K(kt.sort(), z3.BoolVal(False))
+        for x in items:
+            dom = z3.Store(dom, unwrap(x, kt), z3.BoolVal(True))
+        cs = [const_of(x) for x in items]
+        if all(c is not _NOCONST for c in cs):
+            card = z3.IntVal(len(set(cs)))
+        else:
+            card = self.path.fresh("setlit_card", z3.IntSort())
+            self.path.assume(z3.And(card >= 1, card <= len(items)))
+        return VSet(dom, card, kt)
 
     def ev_JoinedStr(self, n, env):
         parts = []
@@ -594,7 +815,13 @@ class Interp:
             elif isinstance(v, ast.FormattedValue):
                 x = self.ev(v.value, env)
                 if v.format_spec is not None or v.conversion not in (-1, 115):
-                    sx = self.ver.opaque_str("fmt", x, self)
+                    # one uninterpreted function per (conversion, format spec): `{x:02d}` and `{x:03d}` must not be
+                    # identified with each other
+                    if v.format_spec is not None and any(isinstance(c, ast.FormattedValue) for c in ast.walk(v.format_spec)):
+                        raise Unsupported("f-string with a computed format spec")
+                    tag ="fmt_%s_%s" % (v.conversion, "".join(c if c.isalnum() else "_" for c in (
+                        ast.unparse(v.format_spec) if v.format_spec is not None else "")))
+                    sx = self.ver.opaque_str(tag, x, self)
                 else:
                     sx = self.to_str(x)
                 parts.append(sx.e)
@@ -635,6 +862,11 @@ class Interp:
                     # `x or {}` / `x or []` / `x or 0`: the default is a side-effect free literal; merge instead of forking
                     D.wf(self, last.e)
                     return VDyn(z3.If(D.truth(last), last.e, D.to_dyn(self.ev(nxt, env))))
+            if isinstance(n.op, ast.Or) and i == len(n.values) - 2 and isinstance(n.values[-1], ast.Constant) \
+                    and isinstance(n.values[-1].value, str) and isinstance(last, VStr):
+                # `s or "<literal>"` on a string: value-level (no path fork); the literal has no side effect and a
+                # str is falsy exactly when it is empty
+                return VStr(z3.If(last.e != z3.StringVal(""), last.e, z3.StringVal(n.values[-1].value)))
             # pure boolean fast path: remaining operands are side-effect free comparisons
             t = self.test(last)
             if isinstance(n.op, ast.And) and not t:
@@ -653,6 +885,9 @@ class Interp:
             return a
         if z3.is_false(c):
             return b
+        if isinstance(a, VDictRec) and isinstance(b, VDictRec) and (a.mt is not None or b.mt is not None) and self.spec:
+            mt = a.mt if a.mt is not None else b.mt   # by-value records (spec level only: the result is a copy)
+            return mt.wrap(z3.If(c, unwrap(a, mt), unwrap(b, mt)))
         if isinstance(a, (VObj, VFunc, VDictRec)) or isinstance(b, (VObj, VFunc, VDictRec)):
             if a is b:
                 return a
@@ -740,18 +975,31 @@ class Interp:
             return z3.Not(self.contains(b, a))
         raise Unsupported("compare op")
 
-    def is_(self, a, b):
-        if isinstance(a, VNone) or isinstance(b, VNone):
-            return self.eq(a, b)
-        if isinstance(a, VDyn) or isinstance(b, VDyn) or isinstance(getattr(a, "origin", None) and a.origin[0], D._Frozen) \
-                or isinstance(getattr(b, "origin", None) and b.origin[0], D._Frozen):
+    def is_(self, a, b_):
+        if isinstance(a, VNone) or isinstance(b_, VNone):
+            return self.eq(a, b_)
+        if isinstance(a, VDyn) or isinstance(b_, VDyn) or isinstance(getattr(a, "origin", None) and a.origin[0], D._Frozen) \
+                or isinstance(getattr(b_, "origin", None) and b_.origin[0], D._Frozen):
             raise Unsupported("'is' on Dyn values (object identity of JSON-like values is not modelled)")
+        if not self.spec and (isinstance(a, VOpt) or isinstance(b_, VOpt)):
+            a, b_ = self.force(a), self.force(b_)
+            if isinstance(a, VNone) or isinstance(b_, VNone):
+                return self.eq(a, b_)
+        if _is_j(a) or _is_j(b_):
+            return z3.BoolVal(a is b_)
         if isinstance(a, (VObj, VFunc, VClass, VDictRec, VSeq, VMap, VSet, VOpaque)) or \
-                isinstance(b, (VObj, VFunc, VClass, VDictRec, VSeq, VMap, VSet, VOpaque)):
-            return z3.BoolVal(a is b)
-        if isinstance(a, VBool) and isinstance(b, VBool):
-            return a.e == b.e
-        raise Unsupported("'is' on values")
+                isinstance(b_, (VObj, VFunc, VClass, VDictRec, VSeq, VMap, VSet, VOpaque)):
+            return z3.BoolVal(a is b_)
+        if isinstance(a, VBool) and isinstance(b_, VBool):
+            return a.e == b_.e
+        # identity of two values of an immutable/opaque type is not modelled: an unconstrained boolean that can only
+        # be true when the values are equal (identity implies equality; nothing follows from non-identity)
+        if self.spec:
+            raise Unsupported("'is' on values")
+        bb = self.path.fresh("is_same", z3.BoolSort())
+        self.path.assume(z3.Implies(bb, self.eq(a, b_)))
+        self.ver.note_assumption("`x is y` on non-heap values: unconstrained except that identity implies equality")
+        return bb
 
     def contains(self, cont, x):
         from . import builtins as B
@@ -792,7 +1040,11 @@ class Interp:
             sf = getattr(self, "spec_" + n.func.id, None)
             if sf is not None and self.spec:
                 return sf(n, env)
-        # locals() membership idiom
+        # locals() idiom: a read-only view of the current function's local names (see builtins.VLocals)
+        if isinstance(n.func, ast.Name) and n.func.id == "locals" and not n.args and not self.spec and env.lookup("locals") is None:
+            from . import builtins as B
+            fnode = self.fn_stack[-1].node if getattr(self, "fn_stack", None) else None
+            return B.VLocals(env, fnode)
         f = self.ev(n.func, env)
         args = []
         for a in n.args:
@@ -817,6 +1069,28 @@ class Interp:
             else:
                 kwargs[kw.arg] = self.ev(kw.value, env)
         return self.call(f, args, kwargs, node=n)
+
+    def run_cut(self, key, env, extra=None):
+        """cut point `key` of the verified contract (`asserts={key: [...]}`): ghost statements are executed, other
+        clauses proved (named obligations) and assumed"""
+        c = self.cur_contract
+        if c is None or not getattr(c, "asserts", None) or len(self.fn_stack) != 1:
+            return
+        for i, cl in enumerate(c.asserts.get(key, [])):
+            if cl.startswith("ghost:"):
+                self.exec_ghost(cl[6:], env, extra=extra)
+                continue
+            self.path.prove(self.eval_spec(cl, env, extra=extra), "%s/assert-after:%s#%d" % (c.short, key, i), "assert", where=cl)
+
+    def ev_Yield(self, n, env):
+        """`yield e` in the verified function itself: the generator's output is not materialised (it may contain
+        heap objects and is produced across loop cuts); instead every yield is a cut point "yield:<source of e>"
+        whose ghost statements (with `_yield` bound to the value) record what the contract talks about."""
+        if len(self.fn_stack) != 1 or self.spec:
+            raise Unsupported("yield outside the verified function")
+        v = self.ev(n.value, env) if n.value is not None else VNone()
+        self.run_cut("yield:" + (ast.unparse(n.value) if n.value is not None else ""), env, extra={"_yield": v})
+        return VNone()
 
     def ev_Lambda(self, n, env):
         return VFunc("lambda", "<lambda>", node=n, module=env.module, closure=env)
@@ -927,6 +1201,15 @@ class Interp:
         return pats
 
     def _mk_forall(self, cs, cond, body):
+        if z3.is_true(z3.simplify(cond)) and z3.is_quantifier(body) and body.is_forall():
+            # forall x. True => (forall y. phi)  ==  forall x y. phi : one quantifier, so that a trigger mentioning
+            # both x and y can be chosen (z3 does not pull nested quantifiers by default)
+            n = body.num_vars()
+            vs = [z3.Const(body.var_name(k), body.var_sort(k)) for k in range(n)]
+            inner = z3.substitute_vars(body.body(), *reversed(vs))
+            if z3.is_implies(inner):
+                return self._mk_forall(list(cs) + vs, inner.arg(0), inner.arg(1))
+            return self._mk_forall(list(cs) + vs, z3.BoolVal(True), inner)
         pats = None
         if not self.ver.no_patterns:
             try:
@@ -1015,6 +1298,68 @@ class Interp:
     def spec_exists(self, n, env):
         return self._quant(n, env, False)
 
+    def spec_exists_fn(self, n, env):
+        """exists_fn(p, body): there is a function p: int -> int with body (p is applied as p(j) in body).
+        Assumed (positive): p is a fresh function symbol.  Proved (positive): the disjunction over explicit
+        candidate witnesses -- the contract's `witnesses[p]` lambdas (evaluated over the function's current
+        locals), the permutations produced by sorted()/list.sort() on this path, and the identity; each
+        disjunct implies the existential, so this is sound (possibly incomplete).  Negative occurrences are
+        not supported."""
+        name = n.args[0].id
+        if not self.polarity:
+            raise Unsupported("exists_fn in a negative position")
+        if self.assume_mode:
+            if self.q_ctx:
+                raise Unsupported("exists_fn under a quantifier in an assumed clause")
+            fn = z3.Function(self.path.fresh_name("sk_" + name), z3.IntSort(), z3.IntSort())
+            cands = [fn]
+        else:
+            cands = []
+            c = self.cur_contract
+            top = getattr(self, "top_env", None)
+            for src in (getattr(c, "witnesses", None) or {}).get(name, []) if c is not None else []:
+                try:
+                    cands.append(self.ev(self.ver.parse_spec(src), top))
+                except (Unsupported, PyRaise, SpecUndef):
+                    continue
+            cands.extend(list(getattr(self.path, "fn_witnesses", []))[-3:])
+            cands.append(None)
+        outs = []
+        saved = self.binders.get(name, _MISSING)
+        try:
+            for cand in cands:
+                if cand is None:
+                    f = VFunc("builtin", name, impl=lambda I, args, kw: args[0])
+                elif isinstance(cand, VFunc):
+                    f = cand
+                else:
+                    f = VFunc("builtin", name, impl=lambda I, args, kw, cand=cand: VInt(cand(to_int(args[0]))))
+                self.binders[name] = f
+                try:
+                    outs.append(self.truth(self.ev(n.args[1], env)))
+                except SpecUndef:
+                    continue
+                except Unsupported:
+                    if isinstance(cand, VFunc) and not self.assume_mode:
+                        continue   # a witness hint that mentions a local not bound on this path
+                    raise
+        finally:
+            if saved is _MISSING:
+                self.binders.pop(name, None)
+            else:
+                self.binders[name] = saved
+        if not outs:
+            return VBool(False)
+        if len(outs) == 1:
+            return VBool(outs[0])
+        disj = z3.Or(outs)
+        if not self.assume_mode:
+            # Path.prove1 tries the candidates one at a time before the whole disjunction
+            if not hasattr(self.path, "witness_ors"):
+                self.path.witness_ors = {}
+            self.path.witness_ors[disj.get_id()] = (disj, outs)
+        return VBool(disj)
+
     def spec_implies(self, n, env):
         pol = self.polarity
         self.polarity = False
@@ -1063,11 +1408,36 @@ class Interp:
     def spec_truthy(self, n, env):
         return VBool(self.truth(self.ev(n.args[0], env)))
 
+    def spec_trig(self, n, env):
+        """trig(i): a trigger marker, *defined* as True (axiom assumed on the path).  Writing
+        `forall(i, 0 <= i < n and trig(i), exists(p, ..., xs[p] == i))` gives the clause a usable E-matching
+        pattern on the bare bound integer: a goal of the same shape is negated to a skolem constant i0 with
+        trig(i0), which instantiates every assumed trig-marked clause at i0 (a skolemised `exists` under `forall`
+        has no other term mentioning only i)."""
+        v = self.ev(n.args[0], env)
+        f = z3.Function("trig_mark", z3.IntSort(), z3.BoolSort())
+        if not getattr(self.path, "_trig_axiom", False):
+            self.path._trig_axiom = True
+            x = z3.Int("tm_x")
+            self.path.assume(z3.ForAll([x], f(x), patterns=[f(x)]))
+        return VBool(f(to_int(v)))
+
     def spec_to_real(self, n, env):
         return VReal(to_real(self.ev(n.args[0], env)))
 
     def spec_seq_eq(self, n, env):
         return VBool(self.eq(self.ev(n.args[0], env), self.ev(n.args[1], env)))
+
+    def spec_same_value(self, n, env):
+        """same_value(a, b): equality of the two values' encodings (for containers: stronger than ==, which is
+        extensional and quantified; true when b is an unmodified copy of a)"""
+        a, b = self.ev(n.args[0], env), self.ev(n.args[1], env)
+        if isinstance(a, VDictRec) and not a.fields and isinstance(b, VMap):
+            a = self.empty_map(b.t)
+        if isinstance(b, VDictRec) and not b.fields and isinstance(a, VMap):
+            b = self.empty_map(a.t)
+        t = self.join_types([typeof(a), typeof(b)])
+        return VBool(unwrap(a, t) == unwrap(b, t))
 
     def spec_same_obj(self, n, env):
         return VBool(z3.BoolVal(self.ev(n.args[0], env) is self.ev(n.args[1], env)))
@@ -1195,21 +1565,54 @@ class Interp:
         if m is None:
             raise Unsupported("statement %s at line %s" % (type(s).__name__, getattr(s, "lineno", "?")))
         self.ver.cover(s)
+        self.cur_line = getattr(s, "lineno", 0)
         return m(s, env)
 
     def ex_Expr(self, s, env):
         if isinstance(s.value, ast.Constant):
             return
         self.ev(s.value, env)
+        c = self.cur_contract
+        if c is not None and getattr(c, "asserts", None) and len(self.fn_stack) == 1 and isinstance(s.value, ast.Call):
+            # cut point after an expression statement `x.m(...)`: asserts key "call:x.m"
+            key = "call:" + ast.unparse(s.value.func)
+            for i, cl in enumerate(c.asserts.get(key, [])):
+                if cl.startswith("ghost:"):
+                    self.exec_ghost(cl[6:], env)
+                    continue
+                self.path.prove(self.eval_spec(cl, env), "%s/assert-after:%s#%d" % (c.short, key, i), "assert", where=cl)
 
     def ex_Pass(self, s, env):
         pass
 
     def ex_Assign(self, s, env):
         v = self.ev(s.value, env)
+        if isinstance(v, VDRec):
+            # fresh copy bound to exactly one local: that local owns it (see VDRec.owner); anything else is an alias
+            fresh_copy = (isinstance(s.value, ast.Call) and isinstance(s.value.func, ast.Name) and s.value.func.id == "dict"
+                          and len(s.targets) == 1 and isinstance(s.targets[0], ast.Name))
+            v.owner = (env, s.targets[0].id) if fresh_copy else None
         for t in s.targets:
             self.assign(t, v, env)
         self.ghost_asserts_after(s, env)
+
+    def forget_facts(self, names, env):
+        """drop every path fact that mentions the current payload of the given locals (dropping hypotheses is
+        always sound; it keeps the quantified context small once a stage's facts have been transferred)"""
+        ids = set()
+        for nm in names:
+            v = env.lookup(nm)
+            for e in ([v.arr, v.n] if isinstance(v, VSeq) else [v.dom, v.val, v.card] if isinstance(v, VMap) else []):
+                for c in _consts_of(e):
+                    ids.add(c)
+        if not ids:
+            return
+        keep = []
+        for f in self.path.pc:
+            if _consts_of(f) & ids:
+                continue
+            keep.append(f)
+        self.path.pc[:] = keep
 
     def ghost_asserts_after(self, s, env):
         """sidecar cut points: `asserts={"var": [clauses]}` are proved (named obligations) and then assumed
@@ -1222,13 +1625,121 @@ class Interp:
         for t in getattr(s, "targets", [getattr(s, "target", None)]):
             if t is not None:
                 _target_names(t, names)
+        cnt = self.__dict__.setdefault("_assign_cnt", {})
         for nm in sorted(names):
-            for i, cl in enumerate(c.asserts.get(nm, [])):
-                if cl.startswith("ghost:"):
-                    self.exec_ghost(cl[6:], env)
+            # "var" = after every assignment of var; "var@k" = only after its k-th assignment on this path (1-based)
+            cnt[nm] = cnt.get(nm, 0) + 1
+            for key in (nm, "%s@%d" % (nm, cnt[nm])):
+                for i, cl in enumerate(c.asserts.get(key, [])):
+                    if cl.startswith("ghost:"):
+                        self.exec_ghost(cl[6:], env)
+                        continue
+                    if cl.startswith("abstract:"):
+                        # abstraction at the cut point (sound: hypotheses are only dropped, and only proved facts are
+                        # kept): the named list local gets a fresh value about which exactly the clauses proved above at
+                        # this cut point are assumed; the engine's defining axioms of the old value (comprehension /
+                        # permutation / order facts mentioning its array symbol) are removed from the path condition
+                        tgt = env.lookup(cl[9:].strip())
+                        if not isinstance(tgt, VSeq):
+                            raise Unsupported("abstract: %s is not a list local" % cl[9:])
+                        self.forget_facts_about([tgt.arr])
+                        org = tgt.origin
+                        self.havoc_inplace(tgt, "abs_" + cl[9:].strip())
+                        tgt.origin = org
+                        n0 = len(self.path.pc)
+                        for prev in c.asserts.get(key, [])[:i]:
+                            if not prev.startswith(("ghost:", "abstract:", "forget:", "check:", "forget-axioms:")):
+                                self.path.assume(self.eval_spec(prev, env, assume=True))
+                        self.__dict__.setdefault("_cut_facts", {})[key] = list(self.path.pc[n0:])
+                        continue
+                    if cl.startswith("forget-axioms:"):
+                        # drop the engine's defining axioms (comprehension / permutation / order facts) of a list local
+                        # from the path condition: later obligations no longer see how it was computed
+                        tgt = env.lookup(cl[14:].strip())
+                        if not isinstance(tgt, VSeq):
+                            raise Unsupported("forget-axioms: %s is not a list local" % cl[14:])
+                        self.forget_facts_about([tgt.arr])
+                        continue
+                    if cl.startswith("check:"):
+                        # proved here (named obligation) but not kept as a hypothesis
+                        self.path.prove(self.eval_spec(cl[6:], env), "%s/assert-after:%s#%d" % (c.short, key, i), "assert",
+                                        where=cl[6:], assume_form=z3.BoolVal(True))
+                        continue
+                    if cl.startswith("forget:"):
+                        # drop the facts that an earlier abstraction cut point (by key) had assumed
+                        gone = set(f.get_id() for f in self.__dict__.get("_cut_facts", {}).get(cl[7:].strip(), []))
+                        self.path.pc = [f for f in self.path.pc if f.get_id() not in gone]
+                        continue
+                    if cl.startswith("forget-vars:"):
+                        self.forget_facts([x.strip() for x in cl[12:].split(",")], env)
+                        continue
+                    if cl.startswith("define:"):
+                        self.define_abbrev(cl[7:], nm, env, "%s/assert-after:%s#%d" % (c.short, key, i))
+                        continue
+                    self.path.prove(self.eval_spec(cl, env), "%s/assert-after:%s#%d" % (c.short, key, i), "assert", where=cl,
+                                    assume_form=self.eval_spec(cl, env, assume=True))
+
+    def forget_facts_about(self, exprs):
+        """remove from the path condition every quantified fact that mentions an uninterpreted array constant
+        occurring in one of `exprs` (weakening the hypotheses is always sound)"""
+        syms = set()
+        seen = set()
+        stack = list(exprs)
+        while stack:
+            x = stack.pop()
+            if x.get_id() in seen:
+                continue
+            seen.add(x.get_id())
+            if z3.is_quantifier(x):
+                stack.append(x.body())
+            elif z3.is_app(x):
+                if x.num_args() == 0 and x.decl().kind() == z3.Z3_OP_UNINTERPRETED and z3.is_array(x):
+                    syms.add(x.decl().name())
+                stack.extend(x.children())
+        if not syms:
+            return
+
+        def mentions(f):
+            sn = set()
+            st = [f]
+            while st:
+                y = st.pop()
+                if y.get_id() in sn:
                     continue
-                self.path.prove(self.eval_spec(cl, env), "%s/assert-after:%s#%d" % (c.short, nm, i), "assert", where=cl,
-                                assume_form=self.eval_spec(cl, env, assume=True))
+                sn.add(y.get_id())
+                if z3.is_quantifier(y):
+                    st.append(y.body())
+                elif z3.is_app(y):
+                    if y.num_args() == 0 and y.decl().kind() == z3.Z3_OP_UNINTERPRETED and y.decl().name() in syms:
+                        return True
+                    st.extend(y.children())
+            return False
+        from .core import _has_quant
+        self.path.pc = [f for f in self.path.pc if not (_has_quant(f) and mentions(f))]
+
+    def define_abbrev(self, src, var, env, oname):
+        """cut-point clause `define:<uf term> := <defining expr>` after an assignment to local `var`:
+        the uninterpreted-function term is a *name* for the defining expression (the uf is defined by it; facts
+        about the uf must be justified against this definition by an R.lemma).  Obligation: the value just assigned
+        to `var` IS the defining expression -- checked as a validity with an empty path condition, so the definition
+        itself never enters the path condition -- and from here on `var` holds the uf term."""
+        term_src, def_src = src.split(":=", 1)
+        cur = env.lookup(var)
+        t = self.eval_spec_value(term_src.strip(), env)
+        d = self.eval_spec_value(def_src.strip(), env)
+        s = z3.Solver()
+        s.set("timeout", self.ver.timeout_ms)
+        s.add(z3.Not(self.eq(cur, d)))
+        r = s.check()
+        self.ver.obligation_sites.add(oname)
+        self.ver.note_assumption("`%s` abbreviates `%s` (definition of the uninterpreted function)" % (term_src.strip(), def_src.strip()))
+        if r == z3.unsat:
+            self.ver.record(Obligation(oname, "assert", "proved", path=list(self.path.taken), where="define:" + src))
+            env.find_env(var).vars[var] = t
+        else:
+            self.ver.record(Obligation(oname, "assert", "failed" if r == z3.sat else "unknown",
+                                       detail="value of %s is not the defining expression" % var,
+                                       path=list(self.path.taken), where="define:" + src))
 
     def ex_AnnAssign(self, s, env):
         if s.value is None:
@@ -1264,7 +1775,13 @@ class Interp:
         if isinstance(v, VEmptyList) and isinstance(lt, TList):
             return VSeq(z3.K(z3.IntSort(), self.default_of(lt.elem)), z3.IntVal(0), lt.elem, lt.kind)
         if isinstance(v, VDictRec) and not v.fields and isinstance(lt, TMap):
-            return self.empty_map(lt)
+            m = self.empty_map(lt)
+            dflt = getattr(v, "default_value", None)
+            if dflt is not None:
+                m.default_e = unwrap(dflt, lt.v)     # collections.defaultdict(float|int): missing keys read as 0
+            return m
+        if lt.name in ("JObj", "JList"):
+            return self.coerce_value(v, lt)
         if isinstance(v, VEmptySet) and isinstance(lt, TSet):
             return self.empty_set(lt)
         if isinstance(lt, (TOpt,)) or lt is TReal or lt is TDyn:
@@ -1319,6 +1836,18 @@ class Interp:
             if isinstance(t.slice, ast.Slice):
                 raise Unsupported("slice assignment")
             k = self.ev(t.slice, env)
+            if isinstance(o, VDRec):
+                c = const_of(k) if isinstance(k, VStr) else _NOCONST
+                own = o.owner
+                if (own is None or not isinstance(t.value, ast.Name) or own[0] is not env or own[1] != t.value.id
+                        or not isinstance(c, str) or c not in o.t.fields):
+                    raise Unsupported("item store into a dict-shaped record that is not a fresh local copy (x = dict(rec))")
+                vals = {fn: (unwrap(v, ft) if fn == c else o.t.val(fn, o.e)) for fn, ft in o.t.fields.items()}
+                pres = {fn: (z3.BoolVal(True) if fn == c else o.t.has(fn, o.e)) for fn in o.t.optional}
+                nv = VDRec(o.t.mk(vals, pres), o.t)
+                nv.owner = own
+                env.set(own[1], nv)
+                return
             B.store_subscript(self, o, k, v)
         else:
             raise Unsupported("assign target %s" % type(t).__name__)
@@ -1352,6 +1881,12 @@ class Interp:
             return self.empty_set(t)
         if isinstance(v, VDictRec) and not v.fields and isinstance(t, TMap):
             return self.empty_map(t)
+        if isinstance(v, VDictRec) and not v.fields and t.name == "JObj":
+            from . import jsontree
+            return jsontree.VJDict()
+        if isinstance(v, VEmptyList) and t.name == "JList":
+            from . import jsontree
+            return jsontree.VJList()
         if isinstance(t, TOpt) and not isinstance(v, VOpt):
             try:
                 return t.wrap(unwrap(v, t))
@@ -1419,6 +1954,11 @@ class Interp:
 
     def ex_FunctionDef(self, s, env):
         f = VFunc("ast", s.name, node=s, module=env.module, closure=env)
+        outer = self.fn_stack[-1] if getattr(self, "fn_stack", None) else None
+        oq = getattr(outer, "qual", None)
+        if oq is not None and "#" not in oq:
+            # nested function: addressable by contracts as 'path.py:outer.<locals>.inner'
+            f.qual = "%s.<locals>.%s" % (oq, s.name)
         env.set(s.name, f)
 
     def ex_Assert(self, s, env):
@@ -1598,10 +2138,14 @@ class Interp:
                 self.raise_exc("RuntimeError", "no active exception")
             raise PyRaise(cur)
         v = self.ev(s.exc, env)
+        if isinstance(v, VOptObj):
+            v = self.force(v)       # optional exception value (fsmodel.TOptExc); None -> TypeError below
         if isinstance(v, VClass):
             v = self.call(v, [], {})
         if isinstance(v, VExc):
             raise PyRaise(v)
+        if isinstance(v, VNone):
+            self.raise_exc("TypeError", "exceptions must derive from BaseException")
         if isinstance(v, VObj) and self.ver.is_exc_class(v):
             raise PyRaise(VExc(self.class_of(v).name, [v]))
         raise Unsupported("raise of non-exception value")
@@ -1653,9 +2197,17 @@ class Interp:
                     raise
             else:
                 self.exec_block(s.orelse, env)
-        except (PyRaise, ReturnSig, BreakSig, ContinueSig):
+        except (PyRaise, ReturnSig, BreakSig, ContinueSig) as sig:
             if s.finalbody:
-                self.exec_block(s.finalbody, env)
+                # while a `finally` block runs because of an exception, that exception is the one "being handled":
+                # a bare `raise` inside it re-raises *it* (not the exception of an enclosing handler)
+                saved = getattr(self, "cur_exc", None)
+                if isinstance(sig, PyRaise):
+                    self.cur_exc = sig.exc
+                try:
+                    self.exec_block(s.finalbody, env)
+                finally:
+                    self.cur_exc = saved
             raise
         else:
             if s.finalbody:
@@ -1783,6 +2335,14 @@ class Interp:
                     genv.vars[gname] = self.havoc_like(gv, "lg_" + gname)
         for extra in spec.get("modifies", []):
             paths.append(extra)
+        ge = getattr(self, "ghost_env", None)
+        if ge is not None and "fs" in ge.vars:
+            # abstract file system (pyvc/fsmodel.py): I/O primitives mutate the ghost state behind the back of the
+            # syntactic modifies analysis, so every cut loop havocs it (the invariants say what is preserved)
+            from . import fsmodel
+            for g in fsmodel.GHOST_NAMES:
+                if g in ge.vars and g not in paths:
+                    paths.append(g)
         for nm in sorted(names):
             cur = env.lookup(nm)
             lt = self.ver.local_type(self, nm)
@@ -1803,9 +2363,14 @@ class Interp:
                 raise Unsupported("loop assigns list '%s' of unknown element type; declare it in locals" % nm)
             else:
                 env.find_env(nm).vars[nm] = self.fresh_value(typeof(cur), "lv_" + nm)
+        from .modset import _root
         for p in paths:
             try:
                 node = self.ver.parse_spec(p) if isinstance(p, str) else p
+                from .modset import _root
+                rn = _root(node)
+                if rn is not None and rn in names and env.lookup(rn) is None:
+                    continue    # a container local first bound inside the loop body: nothing to havoc yet
                 saved = self.spec
                 self.spec = True
                 try:
@@ -1818,13 +2383,64 @@ class Interp:
                             elif cur is not None:
                                 base.fields[node.attr] = self.havoc_like(cur, "lm_" + node.attr)
                             continue
-                    v = self.ev(node, env)
+                    try:
+                        v = self.ev(node, env)
+                    except Unsupported:
+                        # the mutated path mentions a name that is only bound inside the body (e.g.
+                        # `d.setdefault(k, []).append(x)` with k assigned in the loop): havoc the whole root container
+                        r2 = node
+                        while isinstance(r2, (ast.Attribute, ast.Subscript, ast.Call)):
+                            r2 = r2.func if isinstance(r2, ast.Call) else r2.value
+                        v = env.lookup(r2.id) if isinstance(r2, ast.Name) else None
+                        if v is None:
+                            raise
                 finally:
                     self.spec = saved
                 if isinstance(v, (VSeq, VMap, VSet, VObj, VDictRec)):
                     self.havoc_inplace(v, "lm")
             except Unsupported:
+                if getattr(node, "_alias_src", False):
+                    continue   # a name of the binding expression that is not a variable here (builtin, comprehension var)
                 raise
+        self.havoc_ghost_targets(s, env)
+
+    def havoc_ghost_targets(self, s, env):
+        """ghost variables written by the `ghost:` statements of the verified contract's cut points
+        (`asserts={"x": [...], "call:x.m": [...]}`) are havoc'd at the cut of every loop whose body contains such a
+        cut point syntactically (ghost variables written by registered `effects` are handled in havoc_loop_targets)."""
+        genv = getattr(self, "ghost_env", None)
+        cc = self.cur_contract
+        if genv is None or not genv.vars or cc is None or len(self.fn_stack) != 1:
+            return
+        writes = self.ver.ghost_cut_writes(cc)
+        if not writes:
+            return
+        from .modset import _target_names
+        cuts = set()
+        for st in list(s.body) + list(s.orelse):
+            for x in ast.walk(st):
+                if isinstance(x, (ast.Assign, ast.AnnAssign)):
+                    for t in getattr(x, "targets", [getattr(x, "target", None)]):
+                        if t is not None:
+                            _target_names(t, cuts)
+                elif isinstance(x, ast.Expr) and isinstance(x.value, ast.Call):
+                    cuts.add("call:" + ast.unparse(x.value.func))
+                elif isinstance(x, ast.Yield):
+                    cuts.add("yield:" + (ast.unparse(x.value) if x.value is not None else ""))
+        names = set()
+        for key, ns in writes.items():
+            if key in cuts:
+                names |= ns
+        for nm in sorted(names):
+            cur = genv.vars.get(nm)
+            if cur is None:
+                continue
+            if isinstance(cur, (VSeq, VMap, VSet, VObj, VDictRec)):
+                self.havoc_inplace(cur, "gh_" + nm)
+            elif isinstance(cur, (VFunc, VClass, VModule, VOpaque)):
+                continue
+            else:
+                genv.vars[nm] = self.fresh_value(typeof(cur), "gh_" + nm)
 
     def ex_For(self, s, env):
         from . import builtins as B
@@ -1832,6 +2448,27 @@ class Interp:
 
 
 _MISSING = object()
+
+
+def _consts_of(e):
+    out = set()
+    seen = set()
+    st = [e]
+    while st:
+        x = st.pop()
+        if x.get_id() in seen:
+            continue
+        seen.add(x.get_id())
+        if z3.is_quantifier(x):
+            st.append(x.body())
+        elif z3.is_app(x):
+            if x.num_args() == 0 and x.decl().kind() == z3.Z3_OP_UNINTERPRETED:
+                out.add(x.decl().name())
+            st.extend(x.children())
+    return out
+def _is_j(v):
+    """python-side JSON model values (pyvc/jsontree.py)"""
+    return type(v).__name__ in ("VJDict", "VJSet", "VJList", "VWStr")
 
 
 class SpecUndef(Exception):
